@@ -1089,6 +1089,8 @@ pub fn snapshot(env: &mut Env<VS>) -> BTreeMap<String, String> {
                     m.insert("tty_fds".into(), on_tty.join(","));
                 }
                 m.insert("sigmask".into(), format!("{:?}", p.blocked_signals()));
+                // the terminal's foreground process group and the group of this process
+                m.insert("term".into(), format!("fg={:?} pgid={:?} pid={:?}", st.foreground.map(|p| p.0), p.pgid().0, pid.0));
             }
         }
     });
